@@ -60,7 +60,7 @@ func DumpAndCompress(t interface{}, format uint8, compression uint8) ([]byte, er
 // DecompressAndLoad decompresses the data using the specified compression format and then loads the resulting data blob into the interface.
 func DecompressAndLoad(data []byte, compression uint8, t interface{}) (format uint8, err error) {
 	// Check if compression format is valid.
-	_, ok := ValidateCompressionFormat(compression)
+	compression, ok := ValidateCompressionFormat(compression)
 	if !ok {
 		return 0, ErrIncompatibleFormat
 	}
